@@ -50,7 +50,7 @@ func (P) Engine() string { return "E1+E2" }
 func (P) Describe() harness.Description {
 	return harness.Description{
 		MustHit: []string{"internal_panic_path", "late_trace_error", "repeated_or_late_exit", "pool_object_reused"},
-		Level: "exploration",
+		Level:   "exploration",
 		Rule: "case = (1-3 resources with optional real flow / isolation / hotspot rules, chain = fresh default chain + scripted prepare slot + scripted rule-check slot + recording stat slot; 10-60 ops: Entry(batch 1..2^32-1, inbound/outbound, argument lists incl. un-hashable values that make the hotspot check panic, script pass/block/panic-in-prepare/panic-in-check/nil), TraceError, Exit, Exit(WithError), repeated and late calls, ticks); " +
 			"after every op: one outcome per Entry, exactly one pass|block callback with the right resource and batch, exactly one completion per passed entry with its own last error and rt, none for blocked, late calls change nothing (callback log, figures, other live entries' Err()/Args), node and inbound concurrency == live entries (never negative), windowed sums == reference window of the tallied events. " +
 			"E2 (25%): 2-4 callers, same conservation at quiescence and per-entry attribution. non-trivial = a pooled object was handed to a second entry or a panic path ran; distinct = hash(config, ops[, schedule])",
